@@ -307,10 +307,23 @@ def check_case(case):
         require(_same(outs[0], outs[1]), "training_set.two_batches.posterior", lambda: "posterior samples differ when the same %d observed experiments are added in two batches (%d + %d) instead of one" % (observed.size, k, observed.size - k))
 
     # ---- refusals
-    for label, mutate in (("masked", None), ("negative", -0.2), ("nan", float("nan"))):
+    obs_ids = sorted(int(p_.plate_id) for p_ in screen_a.plates if bool(np.all(p_.observation_mask)))
+    un_ids = sorted(int(p_.plate_id) for p_ in screen_a.plates if not bool(np.any(p_.observation_mask)))
+    for label, mutate in (("masked", None), ("masked_view_combine", "combine"), ("masked_view_concat", "concat"), ("masked_view_subset", "subset"), ("negative", -0.2), ("nan", float("nan"))):
         m2 = cls(experiment_space=ExperimentSpace.from_screen(screen_a), n_embedding_dimensions=case["D"])
         if mutate is None:
             data = screen_a  # still contains masked rows
+        elif mutate in ("combine", "concat", "subset"):
+            # views that hold an observed plate AND a masked plate (in either order of construction)
+            from batchie.data import ScreenSubset
+
+            po, pu = screen_a.get_plate(obs_ids[case["seed"] % len(obs_ids)]), screen_a.get_plate(un_ids[case["seed"] % len(un_ids)])
+            if mutate == "combine":
+                data = po.combine(pu) if case["seed"] % 2 else pu.combine(po)
+            elif mutate == "concat":
+                data = ScreenSubset.concat([po, pu])
+            else:
+                data = screen_a.subset(np.asarray(po.selection_vector) | np.asarray(pu.selection_vector))
         else:
             obs_rows = [i for i, r in enumerate(rows) if r["p"] in set(sc["observed"])]
             # corrupt an observed full-combination row if there is one (the row class every model trains on), else any observed row
@@ -323,7 +336,7 @@ def check_case(case):
         except ValueError:
             require(m2.n_obs() == 0, "refusal.%s.state" % label, "model kept observations although it refused the input")
             continue
-        raise Violation("refusal." + label, "%s accepted input that contains %s observations (n_obs=%d)" % (case["model"], {"masked": "masked", "negative": "negative", "nan": "NaN"}[label], m2.n_obs()))
+        raise Violation("refusal." + label, "%s accepted input that contains %s observations (n_obs=%d)" % (case["model"], {"negative": "negative", "nan": "NaN"}.get(label, "masked"), m2.n_obs()))
 
     labels = [case["model"], case["scorer"], "cli" if case["cli"] else "api"]
     if any(isinstance(v, float) and v != v for v in case["twin"].values()):
